@@ -92,6 +92,8 @@ func runCase(c caseLine) (obs string) {
 		return execSt(toks)
 	case "fw":
 		return execFw(toks)
+	case "pl":
+		return execPl(toks)
 	}
 	return "bad-case"
 }
@@ -125,7 +127,7 @@ func readCorpus(path string) []caseLine {
 }
 
 func main() {
-	mode := flag.String("mode", "dec", "dec | rt | st | fw")
+	mode := flag.String("mode", "dec", "dec | rt | st | fw | pl")
 	tier := flag.String("tier", "quick", "quick | thorough")
 	seed := flag.Uint64("seed", 1, "seed")
 	stats := flag.String("stats", "", "stats file")
@@ -153,11 +155,13 @@ func main() {
 			cases = append(cases, genSt(r, thorough)...)
 		case "fw":
 			cases = append(cases, genFw(r, thorough)...)
+		case "pl":
+			cases = append(cases, genPl(r, thorough)...)
 		}
 	}
 	// dec/rt measure allocation with process-wide counters: they run on one goroutine.
 	par := 1
-	if *mode == "st" || *mode == "fw" {
+	if *mode == "st" || *mode == "fw" || *mode == "pl" {
 		par = *workers
 	}
 	obs := make([]string, len(cases))
